@@ -12,7 +12,7 @@ META = {
         "text": "Kernel-checked: decode (encode v ++ rest) = (norm v, rest) for every resolved schema type and every well-typed value (no size bound besides int32 frames), frame size prefix = bytes that follow, a framed response is consumed exactly, unknown tagged fields are skipped, model encoder = Kafka reference encoder; instantiated at every registered API x version re-extracted from the source. Tied to the code by regenerated schemas and by running WriteRequest/WriteResponse/ReadRequest/ReadResponse (default and unsafe builds) against the model on generated values, both directions.",
         "design_ref": "DESIGN.md §7 C04",
     },
-    "level_note": "Trusted: Lean kernel + propext/Classical.choice/Quot.sound; the go/ast schema extractor; the driver/oracle correspondence (sampled values); Spec/KafkaWire.lean and the golden table Spec/KafkaSchemas.lean are transcriptions from the published Kafka protocol (24 APIs audited, the others follow the tree: snapshot-unaudited); RecordSet payloads are opaque blobs here (C05). The hand-written Conn codec (write.go/sizeof.go) is not yet modelled — partial, see docs/notes/C04.md.",
+    "level_note": "Trusted: Lean kernel + propext/Classical.choice/Quot.sound; the go/ast schema extractor; the driver/oracle correspondence (sampled values); Spec/KafkaWire.lean and the golden table Spec/KafkaSchemas.lean are transcriptions from the published Kafka protocol (23 APIs audited, the others follow the tree: snapshot-unaudited); RecordSet payloads are opaque blobs here (C05). The hand-written Conn codec (write.go/sizeof.go) is not yet modelled — partial, see docs/notes/C04.md.",
 }
 
 MODULE = "KafkaVerif.Props.C04"
@@ -33,13 +33,19 @@ def run(ctx, variants=(("verif", "c04"), ("verif,unsafe", "c04u"))):
         broken.append({"kind": "obligation", "theorems": res["failed"], "detail": res["reasons"][:10]})
     thms = list(ctx.coverage.get("theorems", []))
     # the hand-written Conn codec: size()/writeTo() of every root-package request type, re-translated and re-proved
-    okl, logl = ctx.extract("legacy", ["lean/KafkaVerif/Gen/Legacy.lean"])
+    okl, logl = ctx.extract("legacy", ["lean/KafkaVerif/Gen/Legacy.lean", "lean/KafkaVerif/Gen/LegacyGolden.lean"])
     if not okl:
         broken.append({"kind": "obligation", "name": "translator go/extract legacy", "detail": logl[-1500:]})
     resl = ctx.prove("KafkaVerif.Gen.Legacy", thorough_leanchecker=False)
     if not resl["ok"]:
         broken.append({"kind": "obligation", "name": "legacy_size (announced size = bytes written) no longer proves for the Conn codec",
                        "theorems": resl["failed"], "detail": resl["reasons"][:10]})
+    thms += list(ctx.coverage.get("theorems", []))
+    # … and what each (*Conn).writeRequest call site emits is the reference encoding under the golden schema
+    resg = ctx.prove("KafkaVerif.Gen.LegacyGolden", thorough_leanchecker=False)
+    if not resg["ok"]:
+        broken.append({"kind": "obligation", "name": "legacy_eq_spec (Conn request body = reference encoding under the golden schema) no longer proves",
+                       "theorems": resg["failed"], "detail": resg["reasons"][:10]})
     ctx.coverage["theorems"] = thms + list(ctx.coverage.get("theorems", []))
     try:
         gl = open(os.path.join(os.path.dirname(os.path.dirname(os.path.abspath(__file__))), "lean", "KafkaVerif", "Gen", "Legacy.lean")).read()
